@@ -164,13 +164,13 @@ func TestVerif_C20(t *testing.T) {
 		{Name: "two-local-close-anytime", Bound: 2, BoundT: 3, Body: c20Body(c20Opts{sizes: []int{5, 6}, localClose: true})},
 		{Name: "two-close-inside-ondata", Bound: 2, BoundT: 3, Body: c20Body(c20Opts{sizes: []int{5, 6}, closeInCB: true})},
 		{Name: "close-inside-ondata-with-bytes-left", Bound: 1, BoundT: 2, Body: c20Body(c20Opts{sizes: []int{8, 6}, chunk: 3, closeInCB: true})},
-		{Name: "three-shm-chunked-lazy-writer", Bound: 2, BoundT: 3, Body: c20Body(c20Opts{sizes: []int{4, 4, 4}, chunk: 3, lazyClient: true})},
-		{Name: "three-shm-lazy-writer-slow-callback", Bound: 2, BoundT: 3, Body: c20Body(c20Opts{sizes: []int{4, 4, 4}, lazyClient: true, slowCB: true})},
+		{Name: "three-shm-chunked-lazy-writer", Bound: 1, BoundT: 3, Body: c20Body(c20Opts{sizes: []int{4, 4, 4}, chunk: 3, lazyClient: true})},
+		{Name: "three-shm-lazy-writer-slow-callback", Bound: 1, BoundT: 3, Body: c20Body(c20Opts{sizes: []int{4, 4, 4}, lazyClient: true, slowCB: true})},
 		// "data that arrives just as the callback returns": each message is flushed the moment the previous one was consumed
 		{Name: "next-message-as-callback-returns-slow-callback", Bound: 2, BoundT: 3, Body: c20Body(c20Opts{sizes: []int{4, 4, 4}, rhythm: true, slowCB: true})},
-		{Name: "next-message-as-callback-returns", Bound: 2, BoundT: 3, Body: c20Body(c20Opts{sizes: []int{4, 4, 4}, rhythm: true})},
+		{Name: "next-message-as-callback-returns", Bound: 1, BoundT: 3, Body: c20Body(c20Opts{sizes: []int{4, 4, 4}, rhythm: true})},
 		{Name: "two-shm-reuse-slow-callback", Bound: 1, BoundT: 2, Body: c20Body(c20Opts{sizes: []int{5, 6}, reuse: true, slowCB: true})},
-		{Name: "three-shm-reuse-lazy-writer", Bound: 2, BoundT: 3, Body: c20Body(c20Opts{sizes: []int{4, 4, 4}, reuse: true, lazyClient: true})},
+		{Name: "three-shm-reuse-lazy-writer", Bound: 1, BoundT: 3, Body: c20Body(c20Opts{sizes: []int{4, 4, 4}, reuse: true, lazyClient: true})},
 		{Name: "local-close-anytime-chunked", Bound: 1, BoundT: 2, Body: c20Body(c20Opts{sizes: []int{8, 6}, chunk: 3, localClose: true})},
 	})
 }
